@@ -11,7 +11,8 @@ mkdir -p $D/cov $D/ev
 for id in C01 C02 C03 C04 C05 C06 C07 C08 C09 C10 C11 C12 C13 C14 C15 C16 C17 C18; do
   ./check $id $T >/dev/null 2>&1; echo "$id rc=$?"
 done
-go tool covdata textfmt -i=$D/cov -o $D/cov.txt 2>/dev/null
+go tool covdata textfmt -i=$D/cov -o $D/cov_all.txt 2>&1 | tail -3
+grep -E "^mode:|^github.com/pdok/texel/" $D/cov_all.txt > $D/cov.txt
 (cd /repo && GOFLAGS=-mod=readonly go tool cover -func=$D/cov.txt) | grep -v "verif_" > /verif/coverage/coverage_$T.txt
 tail -1 /verif/coverage/coverage_$T.txt
 unset VERIF_COVER
